@@ -109,6 +109,66 @@ func run(c *mon.Case) {
 			}
 		}
 	}
+	// ---- every order reachable by accepted adjacent swaps (small blocks): depth-first
+	// over the real block with undo; each new order is judged like an accepted move
+	if lim := exploreLimit(c); n <= lim {
+		seen := map[string]bool{}
+		key := func() string {
+			k := ""
+			for _, in := range b.Instructions() {
+				k += fmt.Sprintf("%x,", uint64(in.OrigAddr()))
+			}
+			return k
+		}
+		ok := true
+		var dfs func()
+		dfs = func() {
+			for i := 0; i+1 < n && ok; i++ {
+				if b.Move(i, i+1) != nil {
+					continue
+				}
+				if k := key(); !seen[k] {
+					seen[k] = true
+					var cur []depgen.Ins
+					for _, in := range b.Instructions() {
+						cur = append(cur, byAddr[uint64(in.OrigAddr())])
+					}
+					c.Eval(1)
+					for ei, env := range envs[:3] {
+						if msg := depgen.CompareRef(orig, cur, blockEnd, env); msg != "" {
+							hist = append(hist, "exhaustive exploration of adjacent swaps")
+							c.Fail("C05.order", map[string]string{"kind": kindOf(msg), "when": "all-reachable-orders"}, "pre-state %d: %s\n%s", ei, msg, desc())
+							ok = false
+							return
+						}
+					}
+					want, p1 := depgen.RunEmu(fresh, uint64(b.Begin()), n, envs[0])
+					got, p2 := depgen.RunEmu(code, uint64(b.Begin()), n, envs[0])
+					if p1 != "" || p2 != "" || got != want {
+						c.Fail("C05.emulator", map[string]string{"jnext": fmt.Sprint(hasJnext(cur)), "when": "all-reachable-orders"}, "emulating a reachable order gives\n  %s %s\nthe original block gives\n  %s %s\n%s", clip(got), p2, clip(want), p1, desc())
+						ok = false
+						return
+					}
+					dfs()
+				}
+				if !ok {
+					return
+				}
+				if b.Move(i+1, i) != nil {
+					c.Count("exploration_undo_rejected", 1) // C06/C07's subject; stop exploring
+					ok = false
+					return
+				}
+			}
+		}
+		seen[key()] = true
+		dfs()
+		if !ok && c.Failed() {
+			return
+		}
+		c.Count("blocks_fully_explored", 1)
+		c.Count("reachable_orders_judged", len(seen))
+	}
 	// addresses and behaviour of other blocks untouched by block moves: every instruction keeps its effects
 	for _, bb := range code.Blocks() {
 		for _, in := range bb.Instructions() {
@@ -126,6 +186,17 @@ func run(c *mon.Case) {
 	if c.WantSample() && n <= 6 && changed > 0 {
 		c.Sample(map[string]any{"block": strings.Split(strings.TrimSpace(depgen.Listing(orig)), "\n"), "accepted_moves": hist})
 	}
+}
+
+// exploreLimit: blocks up to this size are explored completely.
+func exploreLimit(c *mon.Case) int {
+	if c.Quick() {
+		if c.Idx%4 == 0 {
+			return 5
+		}
+		return 0
+	}
+	return 6
 }
 
 func hasJnext(is []depgen.Ins) bool {
@@ -154,7 +225,7 @@ func clip(s string) string {
 func main() {
 	mon.Main(mon.Spec{
 		Prop: "C05",
-		Rule: "case = synthetic basic block (3..10 instructions over 2-4 registers + 2 address registers, 2 memory spaces: several writers of one register with readers in between, store/load/store chains, atomics, fences, syscalls, CPU-state changes, jumps to the next instruction, terminating constant/conditional/indirect jumps) and a random walk of 30 move attempts (half adjacent swaps) mixed with block moves; non-trivial = block with >=3 accepted order-changing moves; distinct by block+moves",
+		Rule: "case = synthetic basic block (3..10 instructions over 2-4 registers + 2 address registers, 2 memory spaces: several writers of one register with readers in between, store/load/store chains, atomics, fences, syscalls, CPU-state changes, jumps to the next instruction, terminating constant/conditional/indirect jumps) and a random walk of 30 move attempts (half adjacent swaps) mixed with block moves; afterwards, for blocks of at most 5 (quick, every 4th case) / 6 (thorough) instructions, every order reachable by accepted adjacent swaps is visited depth-first on the real block and judged; non-trivial = block with >=3 accepted order-changing moves; distinct by block+moves",
 		Explanation: "two oracles after every accepted move: (a) the instructions' effects applied in the new order with the reference IR semantics on 6 pre-states must end in the same registers, memory and control transfer as the original order (an IP write equal to the original fall-through address is a fall-through); (b) the real emulator stepped over the moved code must end in the same state as over a fresh un-moved copy",
 		Assumptions: []string{"refir evaluator", "blocks built through deps.NewCode from synthetic parser.Instruction values"},
 		Cases: func(t string) int {
@@ -169,7 +240,7 @@ func main() {
 			}
 			return 3000
 		},
-		RequiredCounts: []string{"moves_accepted", "moves_rejected"},
+		RequiredCounts: []string{"moves_accepted", "moves_rejected", "blocks_fully_explored", "reachable_orders_judged"},
 		Run:            run,
 	})
 }
